@@ -64,6 +64,10 @@ example :
     ∃ k, parseBody b = some (k, []) ∧ serializeBody k = b ∧ sigPrefix k = [0x99, 0, 13] := by
   refine ⟨⟨0x6553F100, 1, .rsa ⟨9, [1, 0xFF]⟩ ⟨2, [3]⟩⟩, by decide, by decide, by decide⟩
 
+/-- the regenerated fact: the Created attribute of a key (primary or subkey) is formatted from the creation time in the
+    key packet itself, not from the signature that binds the key now (which may have been re-issued: D81) -/
+theorem key_created_from_packet : Gen.pgpKeyCreatedFromPacket = true := by decide
+
 /-- the regenerated fact: a key lifetime of zero is treated like an absent one -/
 theorem lifetime_zero_is_never : Gen.pgpLifetimeZeroIsNever = true := by decide
 
